@@ -31,7 +31,7 @@ type Plan struct {
 	MaxForkDepth int      `json:"maxForkDepth"`
 	Events       []Ev     `json:"events"`
 	MaxEvents    int      `json:"maxEvents"`
-	AllowSwitch  bool     `json:"allowSwitch"`
+	MaxSwitches  int      `json:"maxSwitches"`
 	MaxStops     int      `json:"maxStops"`
 	MaxFaults    int      `json:"maxFaults"`
 	MaxSkips     int      `json:"maxSkips"`
@@ -150,9 +150,9 @@ func (p Plan) mcFiles(mode string) (string, map[string][]byte, string) {
 	body := fmt.Sprintf("---- MODULE %s ----\nEXTENDS OpSyncMC\n%scEvents == %s\ncFaultAt == %s\n====\n", mod, p.baseDefs(), p.evDef(), strSet(p.FaultAt))
 	emit := mode != "live"
 	cfg := "CONSTANTS\n" + p.baseConsts() +
-		fmt.Sprintf(" MaxBlocks = %d\n MaxLeaves = %d\n MaxForkDepth = %d\n Events <- cEvents\n MaxEvents = %d\n AllowSwitch = %s\n MaxStops = %d\n MaxFaults = %d\n"+
+		fmt.Sprintf(" MaxBlocks = %d\n MaxLeaves = %d\n MaxForkDepth = %d\n Events <- cEvents\n MaxEvents = %d\n MaxSwitches = %d\n MaxStops = %d\n MaxFaults = %d\n"+
 			" MaxSkips = %d\n MaxSwaps = %d\n FaultAt <- cFaultAt\n DkgEager = %s\n LateNew = %s\n Emit = %s\n Halting = %s\n",
-			p.MaxBlocks, p.MaxLeaves, p.MaxForkDepth, p.MaxEvents, tlaBool(p.AllowSwitch), p.MaxStops, p.MaxFaults, p.MaxSkips, p.MaxSwaps,
+			p.MaxBlocks, p.MaxLeaves, p.MaxForkDepth, p.MaxEvents, p.MaxSwitches, p.MaxStops, p.MaxFaults, p.MaxSkips, p.MaxSwaps,
 			tlaBool(!p.DkgLazy), tlaBool(!p.EarlyNew), tlaBool(emit), tlaBool(mode != "emit"))
 	switch mode {
 	case "emit":
